@@ -309,19 +309,21 @@ def onObs (m : Mon) (label : String) (ok : Bool) (membership : Bool) (prev : Opt
   -- ---- C01 ledger bookkeeping by diffing the player lists around membership calls
   let m := match prev with
     | some p =>
-      if label == "reserve" || label == "update" || label == "leave" || label == "burst-end" then
+      if label == "reserve" || label == "update" || label == "createjoin" || label == "leave" || label == "burst-end" then
         let gone := p.players.filter (fun q => !(o.players.any (·.id == q.id)))
         let came := o.players.filter (fun q => !(p.players.any (·.id == q.id)))
         -- (re-buys of players already at the table are booked by `noteOp`, from the amount the call named)
         { m with takenOut := m.takenOut + (gone.map (·.bankroll)).sum,
                  broughtIn := m.broughtIn + (came.map (·.bankroll)).sum }
       else m
-    | none => m
+    | none =>
+      -- a table created with players: its first observation already lists them
+      if label == "createjoin" then { m with broughtIn := m.broughtIn + (o.players.map (·.bankroll)).sum } else m
   let v1 := if noHand o && totalBankroll o != m.broughtIn - m.takenOut then ["C01.ledger-does-not-balance-between-hands"] else []
   -- players vanish or appear only through membership calls
   let v3b := match prev with
     | some p =>
-      if !(label == "reserve" || label == "update" || label == "leave" || label == "new" || label == "burst-end") &&
+      if !(label == "reserve" || label == "update" || label == "createjoin" || label == "leave" || label == "new" || label == "burst-end") &&
          !(p.players.map (·.id) == o.players.map (·.id)) then ["C03.player-list-changed-without-a-membership-call"] else []
     | none => []
   -- the blinds published for a hand are written at its open and by nothing else (a level change affects later hands only)
@@ -329,6 +331,10 @@ def onObs (m : Mon) (label : String) (ok : Bool) (membership : Bool) (prev : Opt
     | some p => if label != "fire.opened" && label != "new" && !m.openedSince && o.gameBlind != p.gameBlind
                 then ["C12.published-hand-blinds-changed-without-an-open"] else []
     | none => []
+  -- a table created on a break starts paused — with or without players
+  let v12c : List String :=
+    if (label == "new" || label == "createjoin") && ok && o.blind.isBreaking && o.status != .pausing
+    then ["C12.table-created-on-a-break-not-paused"] else []
   -- a player who has just brought chips in (re-buy, add-on) is one the seat manager counts as having chips: that flag is
   -- what makes a busted player eligible again
   let v5r : List String :=
@@ -458,6 +464,13 @@ def onObs (m : Mon) (label : String) (ok : Bool) (membership : Bool) (prev : Opt
         let stay := (p.players.filter (fun q => q.participated && q.bankroll > 0)).map (·.id)
         ({ m with openObs := none, opts := none, result := [], stayIn := stay,
                   fundedAtTick := funded o, expectOpen := label == "continue.setup" && funded o ≥ 2 }, v7 ++ v8 ++ v12 ++ v5)
+    else if label.startsWith "tick." then
+      -- the delayed handler of the continue step on a table that was closed or released meanwhile does nothing at all
+      match prev with
+      | some p =>
+        (m, if m.closedSeen && (o.status != p.status || o.gate != p.gate || label != "tick.nothing")
+            then ["C07.continue-handler-acted-on-a-closed-or-released-table"] else [])
+      | none => (m, [])
     else if label == "reserve" && ok then
       -- C05: the waiting flag of a freshly seated player
       match prev, o.sm with
@@ -501,6 +514,6 @@ def onObs (m : Mon) (label : String) (ok : Bool) (membership : Bool) (prev : Opt
          then ["C12.hand-blinds-changed-while-the-hand-runs"] else [])
       else []
     | none => []
-  ({ m with openedSince := false }, v3 ++ v3a ++ v3b ++ v1 ++ v5r ++ v12g ++ vl ++ vh)
+  ({ m with openedSince := false }, v3 ++ v3a ++ v3b ++ v1 ++ v5r ++ v12g ++ v12c ++ vl ++ vh)
 
 end TBSpec
